@@ -260,6 +260,20 @@ def run(ck, prog, tier, load):
     ok = bool(nones) and all(guarded_by(pn, bb, cmp_pred("Eq", lambda e: True, lambda e: True, True))[0] for bb, e in nones)
     ck.ob("C16-d.ends-at-size", "poll_next", ok, pn, nones[0][0] if nones else None, "the stream ends exactly on the edge size == counter")
 
+    # a directory listing is produced only when listings are enabled: both the record of "the directory to list" and the
+    # renderer call sit behind show_index
+    for fb in prog.find(r"actix_files::service::FilesService as actix_service::Service<.*>>::call"):
+        for cb in prog.with_closures(fb):
+            if cb is fb:
+                continue
+            show = lambda c, lab: bool(bool_test(c, lab)) and bool_test(c, lab)[1] is True and e_has_field(bool_test(c, lab)[0], r"FilesService(Inner)?\.show_index$")
+            for l in user_locals(cb, r"Option<\(.*PathBuf.*PathBuf"):
+                for d in cb.defs().get(l, []):
+                    e = cb.def_expr(d, 3)
+                    if is_agg(e, r"Option::Some$"):
+                        ok, wit = guarded_by(cb, d[1], show)
+                        ck.ob("C16-b.listing-only-when-enabled", "FilesService::call|record", ok, cb, d[1], "the directory to be listed is recorded only under show_index (otherwise a directory without its index file is answered 404, not listed)", witness=cb.path_lines(wit))
+
 
 def filter_nonzero(prog, b):
     """the range option is filtered by `range.length > 0` in a closure of b"""
